@@ -1,6 +1,7 @@
 import Lean.Data.Json
 import MLPE.Eng
 import MLPE.Sem
+import MLPE.PlainSpec
 
 /-! Line-protocol front end of the engine model: lock-step replay of an implementation trace.
 
@@ -278,8 +279,20 @@ def semLine (_ : Unit) (line : String) : Unit × String :=
       | some (.ok v) => some (s!"{n}", Json.str (valStr v))
       | some (.fail _) => some (s!"{n}", Json.str "FAIL")
       | none => none
+    -- hypotheses of the plain-fragment theorems, evaluated on this program; and: `Sem` solves the dataflow equations
+    let dref := reducedRef P init P.g.input P.g.output false false false
+    let plainHyp : Bool := match dref with
+      | some d => plainCheck P d && plainAttrsB P && feedsOutputB P d
+      | none => false
+    let semVal : Node → Option Val := fun n => match st.memo n with
+      | some (.ok v) => some v
+      | _ => none
+    let semSolves : Bool := match dref with
+      | some d => solutionB P d semVal
+      | none => false
     ((), (Json.mkObj [("outcome", Json.str oc), ("causes", jsonStrs causes), ("calls", jsonStrs calls),
-                      ("demanded", toJson st.demanded), ("values", Json.mkObj vals)]).compress)
+                      ("demanded", toJson st.demanded), ("values", Json.mkObj vals),
+                      ("plain_hyp", Json.bool plainHyp), ("sem_solves", Json.bool semSolves)]).compress)
 
 end MLPE.Eng
 
